@@ -19,7 +19,11 @@ func repoDir() string {
 
 // debugCmd: govc debug <substring of function name> : verify matching contracts verbosely.
 func debugCmd(args []string) int {
-	w, err := symex.Load(repoDir(), allPatterns, nil)
+	pats := allPatterns
+	if p := os.Getenv("VERIF_PATTERNS"); p != "" {
+		pats = strings.Fields(p)
+	}
+	w, err := symex.Load(repoDir(), pats, nil)
 	if err != nil {
 		fmt.Println("load error:", err)
 		return 2
